@@ -165,7 +165,8 @@ def vol_offsets(F, S, size_chain_ok=False):
     for nd in ph.nodes:
         if nd["k"] == "DeclStmt":
             for d in nd.get("decls", []):
-                if d.get("n") == "dataBlockOffset" and "init" in d:
+                # the running offset: the local that is later stored into an entry's dataBlockOffset field
+                if "init" in d and ("var", d.get("n"), d.get("d")) in offset_locals(ph):
                     for (x, base) in W.arith_nodes(d["init"]):
                         inst = "%s::PrepareHeader#offset-arith:%s" % (VOL, fmt_term(ph.term(x)))
                         if W.may_wrap(x, base):
@@ -174,6 +175,19 @@ def vol_offsets(F, S, size_chain_ok=False):
                         else:
                             out.append(ok("R-NARROW", inst, ph.loc(x), ph.qn, "offset arithmetic is performed wide enough not to wrap",
                                           "needs %d bits, type has %s" % (W.needed(x), ph.n(x).get("iw"))))
+    return out
+
+
+def offset_locals(ph):
+    out = set()
+    for nd in ph.nodes:
+        if is_store(nd):
+            ks = ph.kids(nd["id"])
+            l = ph.term(ks[0])
+            if l[0] == "mem" and l[2] == "dataBlockOffset":
+                r = ph.term(ks[1])
+                if r[0] == "var":
+                    out.add(r)
     return out
 
 
